@@ -1,6 +1,7 @@
 import Lean.Data.Json
 import ReqVerif.Model.Merge
 import ReqVerif.Model.Select
+import ReqVerif.Model.Tags
 /-!
 rvdriver: line protocol between the Python harness and the executable models.
 One JSON object per input line (`{"op": ..., ...}`), one JSON value per output line.
@@ -66,7 +67,8 @@ def opNorm (j : Json) : Json :=
 def parseCand (j : Json) : Sel.Cand :=
   { id := jNat j "id", nameOk := jBool j "nameOk", ver := jNat j "ver", isPre := jBool j "isPre",
     tagsOk := jBool j "tagsOk", specOk := jBool j "specOk", specOkPre := jBool j "specOkPre",
-    typ := jNat j "typ", extra := jNat j "extra", tag := jNat j "tag", readable := jBool j "readable" }
+    typ := jNat j "typ", extra := jNat j "extra", tag := jNat j "tag", readable := jBool j "readable",
+    file := jNat j "file" }
 
 def opSelect (j : Json) : Json :=
   let P : Sel.Params := { allowPre := jBool j "allowPre", hasEq := jBool j "hasEq", reqHasPre := jBool j "reqHasPre",
@@ -78,6 +80,30 @@ def opSelect (j : Json) : Json :=
 def opSortCands (j : Json) : Json :=
   jsonNats ((Sel.sortDesc ((jArr j "cands").map parseCand)).map (·.id))
 
+/-! ### Tags (C20) -/
+
+def jChars (j : Json) (k : String) : List Char := (jStr j k).toList
+def jCharss (j : Json) (k : String) : List (List Char) := (jStrs j k).map String.toList
+
+def parseEnv (j : Json) : Tags.TagEnv :=
+  { impl := jChars j "impl", major := jNat j "major", minor := jNat j "minor",
+    abiTags := jCharss j "abiTags", platTags := jCharss j "platTags",
+    glibc := match jNats j "glibc" with | [a, b] => some (a, b) | _ => none,
+    arch := jChars j "arch",
+    aliases := (jArr j "aliases").map fun p => (jChars p "k", jChars p "v") }
+
+def jsonInt (i : Int) : Json := Json.num (JsonNumber.fromInt i)
+
+def opTags (j : Json) : Json :=
+  let env := parseEnv (jObj j "env")
+  let pys := jCharss j "pys"
+  let abi := (jOptStr j "abi").map String.toList
+  let plats := jCharss j "plats"
+  let sc := Tags.tagScore env (if jBool j "hasPy" then some pys else none) abi plats (jBool j "space")
+  Json.mkObj [("eligible", Json.bool (Tags.eligible env pys abi plats)),
+              ("score", Json.arr #[Json.num (JsonNumber.fromNat sc.1), jsonInt sc.2.1,
+                                   Json.num (JsonNumber.fromNat sc.2.2.1), Json.num (JsonNumber.fromNat sc.2.2.2)])]
+
 def dispatch (op : String) (j : Json) : Json :=
   match op with
   | "merge" => opMerge j
@@ -85,6 +111,7 @@ def dispatch (op : String) (j : Json) : Json :=
   | "requires" => opRequires j
   | "norm" => opNorm j
   | "select" => opSelect j
+  | "tags" => opTags j
   | "sort-cands" => opSortCands j
   | "hello" => Json.mkObj [("protocol", (1 : Nat))]
   | _ => Json.mkObj [("bad-op", op)]
